@@ -63,15 +63,27 @@ fn run(case: &mut Case) -> Result<Outcome, String> {
     let bv = Vector::create(b.clone());
     let kind_name = if badly_scaled { "badly-scaled" } else { KINDS[kind] };
     case.describe(|| format!("all five entry points (first {}) n={} kind={} rhs_kind={} guess_kind={} tol={:.3e} budget={} A={:?} b={:?} x0={:?}", SOLVERS[first], n, kind_name, rhs_kind, guess_kind, tol, budget, a, b, x0));
+    let mut known: Option<(&'static str, String)> = None;
     for off in 0..5 {
         let solver = (first + off) % 5;
-        one_solver(case, solver, &sp, &bv, &a, &b, &x0, n, tol, budget, kind_name)?;
+        if let Some(k) = one_solver(case, solver, &sp, &bv, &a, &b, &x0, n, tol, budget, kind_name)? {
+            known = Some(k);
+        }
+    }
+    if let Some((k, w)) = known {
+        return Ok(Outcome::Known(k, w));
     }
     Ok(Outcome::Pass)
 }
 
+/// drift allowance constant (survey override: VERIF_C08_DRIFT)
+fn drift_c() -> f64 {
+    static F: std::sync::OnceLock<f64> = std::sync::OnceLock::new();
+    *F.get_or_init(|| std::env::var("VERIF_C08_DRIFT").ok().and_then(|v| v.parse().ok()).unwrap_or(200.0))
+}
+
 #[allow(clippy::too_many_arguments)]
-fn one_solver(case: &mut Case, solver: usize, sp: &ohsl::Sparse<f64>, bv: &Vector<f64>, a: &D, b: &[f64], x0: &[f64], n: usize, tol: f64, budget: usize, kind_name: &str) -> Result<(), String> {
+fn one_solver(case: &mut Case, solver: usize, sp: &ohsl::Sparse<f64>, bv: &Vector<f64>, a: &D, b: &[f64], x0: &[f64], n: usize, tol: f64, budget: usize, kind_name: &str) -> Result<Option<(&'static str, String)>, String> {
     let a = a.clone();
     let b = b.to_vec();
     let x0 = x0.to_vec();
@@ -92,7 +104,7 @@ fn one_solver(case: &mut Case, solver: usize, sp: &ohsl::Sparse<f64>, bv: &Vecto
     match res {
         Err(_) => {
             case.class(format!("{} {} Err", SOLVERS[solver], kind_name));
-            Ok(())
+            Ok(None)
         }
         Ok(it) => {
             case.class(format!("{} {} Ok", SOLVERS[solver], kind_name));
@@ -112,7 +124,7 @@ fn one_solver(case: &mut Case, solver: usize, sp: &ohsl::Sparse<f64>, bv: &Vecto
             let nbn = if nb == 0.0 { 1.0 } else { nb };
             let res_true = true_residual(&a, &x, &b);
             let fa = frob(&a);
-            let c = 200.0 * (n as f64 + 2.0);
+            let c = drift_c() * (n as f64 + 2.0);
             let drift = |xmax: f64| c * EPS * (it as f64 + 1.0) * (fa * xmax + nb);
             let claim = tol * nbn * (1.0 + 1e-9);
             let xmax_cheap = norm2(&x0).max(norm2(&x));
@@ -127,11 +139,17 @@ fn one_solver(case: &mut Case, solver: usize, sp: &ohsl::Sparse<f64>, bv: &Vecto
                     }
                 }
                 crate::calib::note("c08 (res-claim)/(eps (it+1)(|A| Xmax_measured + |b|))", (res_true - claim) / (EPS * (it as f64 + 1.0) * (fa * xm + nb)).max(1e-300), || format!("{} n={} {} it={}", SOLVERS[solver], n, kind_name, it));
+                let nm: &'static str = ["c08 ratio/(n+2) cg", "c08 ratio/(n+2) bicg1", "c08 ratio/(n+2) bicg2", "c08 ratio/(n+2) bicgstab", "c08 ratio/(n+2) qmr"][solver];
+                crate::calib::note(nm, (res_true - claim) / ((n as f64 + 2.0) * EPS * (it as f64 + 1.0) * (fa * xm + nb)).max(1e-300), || format!("{} n={} {} it={} tol={:.1e}", SOLVERS[solver], n, kind_name, it, tol));
+                if solver == 4 {
+                    let nm2: &'static str = if it > n { "c08 qmr ratio/(n+2), it > n" } else { "c08 qmr ratio/(n+2), it <= n" };
+                    crate::calib::note(nm2, (res_true - claim) / ((n as f64 + 2.0) * EPS * (it as f64 + 1.0) * (fa * xm + nb)).max(1e-300), || format!("n={} {} it={} tol={:.1e}", n, kind_name, it, tol));
+                }
                 crate::calib::note("c08 same / (n+2)", (res_true - claim) / ((n as f64 + 2.0) * EPS * (it as f64 + 1.0) * (fa * xm + nb)).max(1e-300), || format!("{} n={} {} it={}", SOLVERS[solver], n, kind_name, it));
             }
             if res_true <= claim + drift(xmax_cheap) {
                 crate::calib::note("c08 (res-claim)/drift-unit", (res_true - claim) / (EPS * (it as f64 + 1.0) * (fa * xmax_cheap + nb)).max(1e-300), || format!("{} n={} {}", SOLVERS[solver], n, kind_name));
-                return Ok(());
+                return Ok(None);
             }
             // measure the largest iterate by deterministic budget replay
             let mut xmax = xmax_cheap;
@@ -145,7 +163,16 @@ fn one_solver(case: &mut Case, solver: usize, sp: &ohsl::Sparse<f64>, bv: &Vecto
             }
             case.class("largest iterate measured by budget replay");
             if res_true <= claim + drift(xmax) {
-                return Ok(());
+                return Ok(None);
+            }
+            // known finding D15 - signature: QMR, a matrix of the generated class "badly scaled" (rows and columns times
+            // 2^+-20), success reported after more iterations than the order of the system (the Lanczos process has
+            // run past its exact termination, its vectors are rounding noise)
+            if solver == 4 && kind_name == "badly-scaled" && it > n && case.findings.is_known("C08", "D15-qmr-false-convergence-past-termination") {
+                return Ok(Some((
+                    "D15-qmr-false-convergence-past-termination",
+                    "solve_qmr on a badly row/column-scaled system keeps iterating after the Lanczos process has exhausted the Krylov space (iteration count > order) and reports success on its recurrence residual while the true residual is 1e2..1e7 drift units above the tolerance".into(),
+                )));
             }
             Err(format!(
                 "{} returned Ok({}) but the true residual ||b - A x|| = {:.6e} exceeds tol*||b|| = {:.6e} + drift allowance {:.3e} (largest iterate {:.3e}); x = {:?}",
